@@ -415,7 +415,10 @@ fn probe_reject(args: &Args) {
     } else {
         vec![-1, 0, 4, 8, 9, 11, 19, 10, 15, 32, 33, 34, 64, 65, 127, 128, 129, i32::MAX]
     };
-    for preregistered in [false, true] {
+    // process state before the call: fresh | other signals in use | a forbidden signal was once
+    // taken over through an unchecked entry point (and released again)
+    for premode in [0, 1, 2] {
+        let preregistered = premode == 1;
         for entry in entries.iter() {
             for n in &nums {
                 let n = *n;
@@ -428,6 +431,15 @@ fn probe_reject(args: &Args) {
                         let f = Arc::new(AtomicBool::new(false));
                         signal_hook::flag::register(libc::SIGUSR2, Arc::clone(&f)).unwrap();
                         signal_hook::flag::register(libc::SIGHUP, f).unwrap();
+                    }
+                    if premode == 2 {
+                        for s in [libc::SIGILL, libc::SIGFPE, libc::SIGSEGV] {
+                            if let Ok(id) = unsafe { signal_hook_registry::register_signal_unchecked(s, || ()) } {
+                                if s != libc::SIGFPE {
+                                    signal_hook_registry::unregister(id);
+                                }
+                            }
+                        }
                     }
                     // set-up that is not part of the call under test
                     let base_inst = if *entry == "add_signal" {
@@ -570,6 +582,7 @@ fn probe_reject(args: &Args) {
                         .str("entry", entry)
                         .int("n", n as i64)
                         .boolean("pre", preregistered)
+                        .int("premode", premode as i64)
                         .str("status", &st.text)
                         .raw("r", &kv_json(&st.report))
                         .done()
@@ -744,6 +757,55 @@ fn probe_pipe(args: &Args) {
                 );
             }
         }
+    }
+    // the iterators' own self-pipe (backend.rs wake_readers): a blocking UnixStream pair, also
+    // when it is completely full and nobody reads
+    for fill in ["empty", "full"] {
+        for burst in &bursts {
+            let burst = *burst;
+            let st = fork_run(20000, || {
+                use signal_hook::iterator::backend::SignalDelivery;
+                use signal_hook::iterator::exfiltrator::SignalOnly;
+                let (read, write) = std::os::unix::net::UnixStream::pair().unwrap();
+                let pre = if fill == "full" { fill_to_full(write.as_raw_fd()) } else { 0 };
+                let rfd = read.as_raw_fd();
+                let mut sd = SignalDelivery::with_pipe(read, write, SignalOnly::default(), &[libc::SIGUSR1]).unwrap();
+                unsafe { libc::alarm(5) };
+                for _ in 0..burst {
+                    unsafe { libc::raise(libc::SIGUSR1) };
+                }
+                unsafe { libc::alarm(0) };
+                report("delivered;");
+                let total = drain_count(rfd);
+                let got: Vec<c_int> = sd.pending().collect();
+                report(&format!("pre={};got={};yielded={};", pre, total.saturating_sub(pre), got.len()));
+                0
+            });
+            println!(
+                "{}",
+                Obj::new("iter_pipe").str("fill", fill).int("burst", burst as i64).str("status", &st.text).raw("r", &kv_json(&st.report)).done()
+            );
+        }
+    }
+    // Signals::new default pipe, a long burst nobody reads
+    {
+        let burst = *bursts.iter().max().unwrap_or(&3) * 200;
+        let st = fork_run(30000, || {
+            let mut s = signal_hook::iterator::Signals::new(&[libc::SIGUSR1]).unwrap();
+            unsafe { libc::alarm(10) };
+            for _ in 0..burst {
+                unsafe { libc::raise(libc::SIGUSR1) };
+            }
+            unsafe { libc::alarm(0) };
+            report("delivered;");
+            let got: Vec<c_int> = s.pending().collect();
+            report(&format!("pre=0;got=0;yielded={};", got.len()));
+            0
+        });
+        println!(
+            "{}",
+            Obj::new("iter_pipe").str("fill", "default_unread").int("burst", burst as i64).str("status", &st.text).raw("r", &kv_json(&st.report)).done()
+        );
     }
     // rejected registrations must close the descriptor handed over
     for (what, sig, bad_fd) in [("forbidden", libc::SIGKILL, false), ("os_rejected", 65, false), ("invalid_fd", libc::SIGUSR1, true)] {
